@@ -65,8 +65,6 @@ Proof.
       intros Hin. apply (tok_due s c I1) in Hin. destruct Hin as [Hw _]. cw c. rewrite Heqp in W. intuition congruence.
   - (* SrvAnswer *)
     eapply Permutation_NoDup; [apply perm_answer; exact Hl | exact J].
-  - (* RecvBodyErr, not a net error: nothing of the body is left *)
-    destruct Hl as [Hn|Hn]; [discriminate|]. subst. cbn. exact J.
 Qed.
 
 Lemma in_wire_tok (s0 : state) id t : In (id, t) (srv s0 ++ s2c s0) -> In t (map snd (srv s0) ++ map snd (s2c s0)).
@@ -76,7 +74,6 @@ Lemma wire_step : forall id t, In (id, t) (srv s' ++ s2c s') -> sid (callers s' 
 Proof.
   pose proof (j_rcv s I1) as JR. pose proof (j_toks_nodup s I1) as JN. unfold toks in JN.
   start; intros idx tx Hin; simp_state; ph_match.
-  all: try (match goal with Hd : lok s (RecvBodyErr false _) |- _ => unfold lok in Hd; destruct Hd as [Hx|Hx]; [discriminate|subst; cbn in Hin] end).
   (* WriteEnd WOk: the new entry *)
   all: try (match goal with _ : lok s (WriteEnd _ WOk) |- _ =>
          rewrite <- app_assoc in Hin; apply in_app_iff in Hin; destruct Hin as [Hin|Hin];
